@@ -148,7 +148,8 @@ def run(ctx, env):
         errs = c02.error_sites(body, an)
         pcs = c02.parse_calls(body, ppaths)
         for (b, i, s) in errs:
-            bad = [blk for blk, t, c in pcs if body.reaches(b, blk) or blk == b]
+            after = body.reachable_cp(b)
+            bad = [blk for blk, t, c in pcs if blk == b or (blk in after and body.reaches(b, blk))]
             ctx.ob("R14.4", body.path, "error-terminal:%s" % c02.error_kind(an, body, s), not bad, "parse calls after the error: %s" % bad, site=site(s["span"]))
     # V9 propagation of a short flowset (R7.4 shape, role-based)
     from .cache import uses_of_local
